@@ -44,7 +44,7 @@ import (
 )
 
 const preamble = `From Coq Require Import String List NArith ZArith.
-From Fabio Require Import Lib.Outcome Lib.Bytes Lib.Pack Model.FlagSet Model.KVSlice Model.GlobCacheSize Check.C15.
+From Fabio Require Import Lib.Outcome Lib.Bytes Lib.Pack Model.FlagSet Model.KVSlice Model.GlobCacheSize Model.StartUp Model.LoadArgs Check.C15.
 Import ListNotations.
 Local Open Scope N_scope.
 `
@@ -810,6 +810,9 @@ func main() {
 	// ===== 5b. histories: several Loads in this one process =====
 	genHistoryCases(run, r, opts)
 
+	// ===== 5e. config.parse: version words, -cfg spellings, -test. words =====
+	genArgsCases(run, r)
+
 	// ===== 5d. accepted => can be started =====
 	genStartCases(run, r)
 
@@ -1475,6 +1478,38 @@ func genHistoryCases(run *vh.Run, r *rand.Rand, opts []option) {
 	}
 }
 
+// ---------- config.parse ----------
+func genArgsCases(run *vh.Run, r *rand.Rand) {
+	words := []string{"-v", "-version", "--version", "-cfg", "--cfg", "-cfg=", "--cfg=", "-cfg=/a/b.properties", "--cfg=/a/b", "-cfg='/q/x'", `--cfg="/q/y"`, "-cfg=''", `-cfg="`, "-cfg='a", "--cfg='" + "''", "-cfg=http://h/p", "-test.v", "-test.run=X", "-test", "--test.v",
+		"-ui.title", "x", "-insecure", "-proxy.addr=:1", "--", "-", "", "-V", "-cfgx", "-cfg =x", "--cfg", "/some/file", "positional", "-vv"}
+	fixed := [][]string{{}, {"fabio"}, {"fabio", "-cfg"}, {"fabio", "-cfg", "p"}, {"fabio", "-cfg", "-v"}, {"fabio", "-v", "-cfg"}, {"fabio", "-ui.title", "-v"}, {"fabio", "-cfg=a", "-cfg", "b"}, {"-v"}, {"fabio", "-test.v", "-cfg=x", "-a"}}
+	for i := 0; i < run.Scale(160, 2500); i++ {
+		var args []string
+		if i < len(fixed) {
+			args = fixed[i]
+		} else {
+			args = []string{"fabio"}
+			for j := r.Intn(6); j > 0; j-- {
+				args = append(args, words[r.Intn(len(words))])
+			}
+		}
+		in := append([]string(nil), args...)
+		var cmdline []string
+		var path string
+		var version bool
+		var err error
+		impl := ""
+		if p, _ := vh.Recover(func() { cmdline, path, version, err = config.VerifParse(in) }); p {
+			impl = vh.Panic
+		} else if err != nil {
+			impl = vh.Err(1)
+		} else {
+			impl = vh.Ok("(" + strs(cmdline) + ", " + vh.HxS(path) + ", " + vh.Bool(version) + ")")
+		}
+		run.Add("config-parse-args", vh.App("CArgs", strs(args), impl), map[string]interface{}{"args": args, "cmdline": cmdline, "path": path, "version": version, "err": fmt.Sprint(err)})
+	}
+}
+
 // ---------- accepted => can be started ----------
 func genStartCases(run *vh.Run, r *rand.Rand) {
 	// local sinks so that the providers have something to resolve and send to
@@ -1555,8 +1590,8 @@ func genStartCases(run *vh.Run, r *rand.Rand) {
 		{"metrics.graphite.addr", "string", ":-1", [][2]string{{"metrics.target", "graphite"}}},
 		{"metrics.circonus.apikey", "string", "", [][2]string{{"metrics.target", "circonus"}}},
 		{"runtime.gogc", "int", "-1", nil}, {"runtime.gogc", "int", "0", nil}, {"runtime.gogc", "int", "2147483647", nil},
-		{"runtime.gomaxprocs", "int", "0", nil}, {"runtime.gomaxprocs", "int", "-7", nil}, {"runtime.gomaxprocs", "int", "100000", nil},
-		{"glob.cache.size", "int", "1", nil}, {"glob.cache.size", "int", "2147483647", nil},
+		{"runtime.gomaxprocs", "int", "0", nil}, {"runtime.gomaxprocs", "int", "-7", nil}, {"runtime.gomaxprocs", "int", "256", nil},
+		{"glob.cache.size", "int", "1", nil}, {"glob.cache.size", "int", "1048576", nil},
 	}
 	stats := map[string]int{}
 	for i, pb := range probes {
